@@ -88,6 +88,15 @@ def main():
         pf = os.path.join(seeded, sid, 'patch.diff')
         if os.path.isfile(pf):
             M.append(dict(id=f'seed-{sid}', prop=sid[:3], file='', old='', new='', count='first', expect='fire', rule=None, patch=pf))
+    # changes written by independent sub-agents that could not be confirmed dynamically (.pyx sources cannot be compiled here): selftest/independent/<Cxx>/patch_k.diff
+    # behaviour-preserving refactorings written by independent sub-agents (must stay silent): selftest/refactors/<Cxx>/patch_k.diff
+    for sub, expect in (('independent', 'fire'), ('refactors', 'silent')):
+        base = os.path.join(HERE, sub)
+        for sid in sorted(os.listdir(base)) if os.path.isdir(base) else []:
+            for fn in sorted(os.listdir(os.path.join(base, sid))):
+                if fn.endswith('.diff'):
+                    M.append(dict(id=f'{"indep" if expect == "fire" else "refac"}-{sid}-{fn[:-5]}', prop=sid[:3], file='', old='', new='', count='first', expect=expect, rule=None,
+                                  patch=os.path.join(base, sid, fn)))
     todo = [mu for mu in M if not a.only or a.only in mu['id'] or a.only == mu['prop']]
     t0 = time.time()
     with ThreadPoolExecutor(a.jobs) as ex:
